@@ -45,6 +45,13 @@ RULE = ('Hypothesis draws a federated dataset (2-12 clients, up to 40 in '
         'get_within_round when cohort>=2 and >=2 distinct rounds are sampled; '
         'shuffled_restart when start_round_num>=1. distinct = distinct '
         'canonical case JSON.')
+RULE += (
+    ' '
+    'Later widenings: subsets built from id lists with repeats; the caller mutates returned c'
+    'ohort lists; two seeded streams of one dataset object; a dataset that fails once in the '
+    'middle of a bulk read; populations of 65-130 clients; the stream of a dataset whose clie'
+    'nts were fetched by id before; restart in a child interpreter under another PYTHONHASHSE'
+    'ED.')
 ASSUMPTIONS = [
     'round numbers are in [0, 2^32 - 64]: without jax_enable_x64 '
     'jax.random.PRNGKey(r) keeps only the low 32 bits of r, so rounds r and '
